@@ -430,3 +430,23 @@ for _p in ("C02", "C08", "C16", "C17", "C01"):
 FB_GRAD = flow_mc("fb", ["{1, 2, 5, 6, 7}", 1, 1, 2, "{1, 2}", "TRUE"], ["{1, 2, 3, 4, 5, 6, 7}", 1, 1, 3, "{1, 2, 3}", "TRUE"])
 FB_GRAD["require"] = {"feedback_gradient_cases": 20}
 PROPS["C01"]["mc"].append(FB_GRAD)
+
+PROPS["C09"]["extra_tools"] = [{"tool": "tlapm", "file": "FlagsProof.tla",
+    "theorem": "Safe: for ANY number of layers and ANY flag layout, no flag is on while validation evaluates, every flag-owning layer "
+               "has its flag on while training gradients are computed, all flags are off after learn returns (abstraction of the flag "
+               "actions of Training.tla, inductive invariant proved with TLAPS)"}]
+PROPS["C09"]["technique"] += " + TLAPS proof of the flag discipline for unbounded depth (FlagsProof.tla)"
+PROPS["C13"]["extra_tools"] = [{"tool": "apalache", "file": "EarlyStopApa.tla",
+    "args": ["--cinit=ConstInit", "--inv=HistoriesOK", "--length=17"],
+    "theorem": "HistoriesOK for ALL integer validation-loss trajectories (symbolic), budgets <= 8, tolerances <= 5, with and without validation"}]
+PROPS["C13"]["technique"] += " + Apalache (symbolic integer losses) on the stop rule (EarlyStopApa.tla)"
+
+# ---- specification growth beyond the listed properties (not registered in MANIFEST.json) ----
+PROPS["X01"] = {
+    "level": "model_checking", "technique": "TLC case table of TensorUtil.tla + exact replay",
+    "level_text": "tensor utilities beyond the listed properties: one_hot, argmax tie rule, pad3d, upsample3d, resize, dropout mask",
+    "level_note": "small shapes; the dropout mask is specified through Random.tla (seed 12345, dyadic rates)",
+    "rule": "one case per utility call; all distinct",
+    "mc": [{"module": "MC_X01", "consts": {"quick": {"MaxDim": 3, "Seeds": "{1, 2}"}, "thorough": {"MaxDim": 4, "Seeds": "{1, 2, 3}"}}, "workers": 4}],
+    "assumptions": COMMON_ASSUMPTIONS,
+}
